@@ -27,7 +27,9 @@ func init() {
 			for n, d := range registeredNames {
 				ref[n] = d
 			}
-			names := []string{fmt.Sprintf("c%d-a", c), fmt.Sprintf("c%d-b", c), fmt.Sprintf("C%d-A", c), fmt.Sprintf("c%d\xffz", c), "utf8-light", fmt.Sprintf("c%d é", c)}
+			names := []string{fmt.Sprintf("c%d-a", c), fmt.Sprintf("c%d-b", c), fmt.Sprintf("C%d-A", c), fmt.Sprintf("c%d\xffz", c), "utf8-light", fmt.Sprintf("c%d é", c),
+				// names that sort after, and before, every name registered so far
+				fmt.Sprintf("zz%09d", c), fmt.Sprintf("\xfe%09d", c), fmt.Sprintf(" %09d", 999999999-c), fmt.Sprintf("\x00%09d", 999999999-c)}
 			t := g.do("newtable")
 			it := g.strItem("x")
 			g.do("addheaders " + t + " " + it)
